@@ -36,6 +36,7 @@ import (
 	"os"
 	"os/exec"
 	"path/filepath"
+	"regexp"
 	"runtime"
 	"sort"
 	"strconv"
@@ -180,10 +181,12 @@ func (j *encJob) name() string {
 	return fmt.Sprintf("%s/q%v/m%d", j.Spec, j.Q, j.M)
 }
 
-// encode returns "len:digest", "err", "panic: ..." or "timeout".
+// encode returns "len:digest", "err", "panic: ...", "timeout" (confirmed stuck) or "unfinished".
 func (j *encJob) encode(deadline time.Duration) string {
 	ch := make(chan string, 1)
+	var gid atomic.Int64
 	go func() {
+		gid.Store(webp.VerifGoid())
 		defer func() {
 			if p := recover(); p != nil {
 				ch <- fmt.Sprintf("panic: %v", p)
@@ -196,12 +199,136 @@ func (j *encJob) encode(deadline time.Duration) string {
 		}
 		ch <- fmt.Sprintf("%d:%s", buf.Len(), digest(buf.Bytes()))
 	}()
+	return await(ch, &gid, deadline)
+}
+
+// ---------------------------------------------------------------------------
+// deciding that a call is STUCK (deadlock / lost wake-up) rather than slow.
+//
+// A call that has not returned after `deadline` is not reported on that ground: a loaded or
+// slow machine must never produce a violation.  It is reported as "timeout" only when the
+// goroutine dump shows that it cannot make progress: the goroutine running the call and all
+// goroutines it (transitively) created are blocked on a synchronisation primitive
+// (sync.Cond.Wait, sync.WaitGroup.Wait, sync.Mutex.Lock, semacquire, channel operation,
+// select), no goroutine anywhere in the process is running / runnable / sleeping inside
+// library code (so nobody is left who could wake them), and the same picture is seen in
+// three consecutive dumps.  While anything is still moving the harness keeps waiting, up to
+// a hard cap after which the call is recorded as "unfinished" — no verdict, no violation.
+
+type gInfo struct {
+	id, parent int64
+	state      string
+	lib        bool
+}
+
+var (
+	gHeader  = regexp.MustCompile(`^goroutine (\d+) \[([^\],]+)`)
+	gCreated = regexp.MustCompile(`(?m)^created by .* in goroutine (\d+)$`)
+)
+
+func dumpGoroutines() map[int64]*gInfo {
+	buf := make([]byte, 1<<20)
+	for {
+		n := runtime.Stack(buf, true)
+		if n < len(buf) {
+			buf = buf[:n]
+			break
+		}
+		buf = make([]byte, 2*len(buf))
+	}
+	gs := map[int64]*gInfo{}
+	for _, blk := range strings.Split(string(buf), "\n\n") {
+		m := gHeader.FindStringSubmatch(blk)
+		if m == nil {
+			continue
+		}
+		g := &gInfo{state: m[2], lib: strings.Contains(blk, "github.com/deepteams/webp")}
+		g.id, _ = strconv.ParseInt(m[1], 10, 64)
+		if c := gCreated.FindStringSubmatch(blk); c != nil {
+			g.parent, _ = strconv.ParseInt(c[1], 10, 64)
+		}
+		gs[g.id] = g
+	}
+	return gs
+}
+
+func blockedState(st string) bool {
+	return strings.HasPrefix(st, "sync.") || strings.HasPrefix(st, "semacquire") || strings.HasPrefix(st, "chan ") || st == "select"
+}
+
+// stuckPicture returns (signature, true) when the call run by goroutine `root` cannot progress.
+func stuckPicture(root int64) (string, bool) {
+	gs := dumpGoroutines()
+	if _, ok := gs[root]; !ok || root == 0 {
+		return "", false
+	}
+	in := map[int64]bool{root: true}
+	for changed := true; changed; {
+		changed = false
+		for id, g := range gs {
+			if !in[id] && in[g.parent] {
+				in[id] = true
+				changed = true
+			}
+		}
+	}
+	var sig []string
+	for id, g := range gs {
+		if in[id] {
+			if !blockedState(g.state) {
+				return "", false
+			}
+			sig = append(sig, fmt.Sprintf("%d:%s", id, g.state))
+		} else if g.lib && !blockedState(g.state) {
+			return "", false // somebody is still executing library code: keep waiting
+		}
+	}
+	sort.Strings(sig)
+	return strings.Join(sig, " "), true
+}
+
+var (
+	slowCalls       atomic.Int64 // calls that returned only after the deadline
+	unfinishedCalls atomic.Int64 // calls that had not returned at the hard cap but were not stuck
+	lastStuck       atomic.Value // signature of the last confirmed stuck call (string)
+)
+
+func await(ch <-chan string, gid *atomic.Int64, deadline time.Duration) string {
 	select {
 	case r := <-ch:
 		return r
 	case <-time.After(deadline):
-		return "timeout"
 	}
+	step := deadline / 4
+	if step < time.Second {
+		step = time.Second
+	}
+	hardCap := time.Now().Add(10 * deadline)
+	same, prev := 0, ""
+	for time.Now().Before(hardCap) {
+		select {
+		case r := <-ch:
+			slowCalls.Add(1)
+			return r
+		case <-time.After(step):
+		}
+		sig, stuck := stuckPicture(gid.Load())
+		if !stuck {
+			same, prev = 0, ""
+			continue
+		}
+		if sig == prev {
+			same++
+		} else {
+			same, prev = 1, sig
+		}
+		if same >= 3 {
+			lastStuck.Store(sig)
+			return "timeout"
+		}
+	}
+	unfinishedCalls.Add(1)
+	return "unfinished"
 }
 
 // ---------------------------------------------------------------------------
@@ -538,10 +665,12 @@ type apiCall struct {
 
 var callDeadline = 120 * time.Second
 
-// safe runs fn with panic recovery and a deadline ("timeout" = it never returned).
+// safe runs fn with panic recovery; "timeout" = confirmed stuck (see await), "unfinished" = no verdict.
 func safe(fn func() string) string {
 	ch := make(chan string, 1)
+	var gid atomic.Int64
 	go func() {
+		gid.Store(webp.VerifGoid())
 		defer func() {
 			if p := recover(); p != nil {
 				ch <- fmt.Sprintf("panic: %v", p)
@@ -549,13 +678,12 @@ func safe(fn func() string) string {
 		}()
 		ch <- fn()
 	}()
-	select {
-	case r := <-ch:
-		return r
-	case <-time.After(callDeadline):
-		return "timeout"
-	}
+	return await(ch, &gid, callDeadline)
 }
+
+// excluded marks a call whose result when made alone is not a single value (or that did
+// not finish): nothing can be compared with it.
+const excluded = "\x00excluded"
 
 func buildAPICalls(rng *Rand, thorough bool) []apiCall {
 	var calls []apiCall
@@ -779,7 +907,7 @@ func runConcurrent(calls []apiCall, solo []string, par, rounds int, rng *Rand) (
 				r := safe(calls[j.k].fn)
 				mu.Lock()
 				n++
-				if r != solo[j.k] {
+				if r != solo[j.k] && r != "unfinished" && solo[j.k] != excluded {
 					diffs = append(diffs, map[string]any{"call": calls[j.k].name, "alone": solo[j.k], "concurrent": r})
 				}
 				mu.Unlock()
@@ -818,6 +946,10 @@ func buildPoolCalls(rng *Rand) []poolCall {
 		{imgSpec{W, H, 1, false, rng.U64()}, webp.EncoderOptions{Quality: 60, Method: 2, Partitions: 2}},
 		{imgSpec{W, H, 1, false, rng.U64()}, webp.EncoderOptions{Lossless: true, Quality: 60, Method: 3}},
 		{imgSpec{W, H, 2, true, rng.U64()}, webp.EncoderOptions{Lossless: true, Quality: 90, Method: 4}},
+		// with metadata the lossless coder's buffered (non-streaming) entry point is used and
+		// its result is still being copied into the container after the pooled encoder is released
+		{imgSpec{W, H, 1, false, rng.U64()}, webp.EncoderOptions{Lossless: true, Quality: 50, Method: 2, EXIF: []byte("Exif\x00\x00c10")}},
+		{imgSpec{W, H, 0, true, rng.U64()}, webp.EncoderOptions{Lossless: true, Quality: 70, Method: 3, EXIF: []byte("Exif\x00\x00c10-2")}},
 	}
 	for _, es := range specs {
 		img := genImage(es.sp)
@@ -825,6 +957,9 @@ func buildPoolCalls(rng *Rand) []poolCall {
 		kind := "EncodeLossy"
 		if o.Lossless {
 			kind = "EncodeLossless"
+		}
+		if len(o.EXIF) > 0 {
+			kind += "Meta"
 		}
 		calls = append(calls, poolCall{fmt.Sprintf("%s/%s/q%v/m%d", kind, es.sp, o.Quality, o.Method), kind, func() (string, func() string) {
 			var buf bytes.Buffer
@@ -884,6 +1019,9 @@ func runPoolProbe(calls []poolCall, goroutines, rounds int, rng *Rand) (diffs []
 	for k := range calls {
 		k := k
 		solo[k] = safe(func() string { d, _ := calls[k].fn(); return d })
+		if again := safe(func() string { d, _ := calls[k].fn(); return d }); again != solo[k] || again == "unfinished" || again == "timeout" {
+			solo[k] = excluded
+		}
 	}
 	type kept struct {
 		call int
@@ -926,7 +1064,7 @@ func runPoolProbe(calls []poolCall, goroutines, rounds int, rng *Rand) (diffs []
 				})
 				mu.Lock()
 				ncalls++
-				if d != solo[k] {
+				if d != solo[k] && d != "unfinished" && solo[k] != excluded {
 					key := "pool-sharing/result/" + calls[k].kind
 					if d == "timeout" {
 						key = "deadlock-or-lost-wakeup/pool-sharing/" + calls[k].kind
@@ -935,7 +1073,7 @@ func runPoolProbe(calls []poolCall, goroutines, rounds int, rng *Rand) (diffs []
 						map[string]any{"call": calls[k].name, "alone": solo[k], "concurrent": d, "goroutines": goroutines}})
 				}
 				mu.Unlock()
-				if re != nil {
+				if re != nil && d != "timeout" && d != "unfinished" {
 					keep = append(keep, kept{k, d, re})
 					if len(keep) > 8 {
 						keep = keep[len(keep)-8:]
@@ -948,14 +1086,9 @@ func runPoolProbe(calls []poolCall, goroutines, rounds int, rng *Rand) (diffs []
 			verify("at the end of the goroutine")
 		}(g)
 	}
+	// every call above has its own stuck-detection and hard cap, so the probe ends
 	go func() { wg.Wait(); close(done) }()
-	select {
-	case <-done:
-	case <-time.After(4 * callDeadline):
-		mu.Lock()
-		diffs = append(diffs, poolDiff{"deadlock-or-lost-wakeup/pool-sharing", "the pool-sharing probe did not finish", map[string]any{"goroutines": goroutines}})
-		mu.Unlock()
-	}
+	<-done
 	mu.Lock()
 	defer mu.Unlock()
 	return append([]poolDiff(nil), diffs...), ncalls, nreverify
@@ -1038,6 +1171,9 @@ func runWriterProbe(calls []writerCall, goroutines, rounds int, rng *Rand) (diff
 			}
 			return fmt.Sprintf("%d:%s", buf.Len(), digest(buf.Bytes()))
 		})
+		if solo[k] == "timeout" || solo[k] == "unfinished" {
+			solo[k] = excluded
+		}
 	}
 	var mu sync.Mutex
 	var wg sync.WaitGroup
@@ -1063,12 +1199,12 @@ func runWriterProbe(calls []writerCall, goroutines, rounds int, rng *Rand) (diff
 				})
 				mu.Lock()
 				ncalls++
-				if d != "timeout" && sw.changed > 0 {
+				if d != "timeout" && d != "unfinished" && sw.changed > 0 {
 					diffs = append(diffs, poolDiff{"pool-sharing/buffer-changed-during-write/" + calls[k].kind,
 						"a slice passed to the caller's io.Writer changed while the writer was inside Write (it aliases storage that another goroutine's encode is using)",
 						map[string]any{"call": calls[k].name, "writes-affected": sw.changed, "goroutines": goroutines}})
 				}
-				if d != solo[k] {
+				if d != solo[k] && d != "unfinished" && solo[k] != excluded {
 					key := "pool-sharing/slow-writer-result/" + calls[k].kind
 					if d == "timeout" {
 						key = "deadlock-or-lost-wakeup/slow-writer/" + calls[k].kind
@@ -1081,13 +1217,7 @@ func runWriterProbe(calls []writerCall, goroutines, rounds int, rng *Rand) (diff
 		}(g)
 	}
 	go func() { wg.Wait(); close(fin) }()
-	select {
-	case <-fin:
-	case <-time.After(4 * callDeadline):
-		mu.Lock()
-		diffs = append(diffs, poolDiff{"deadlock-or-lost-wakeup/slow-writer", "the slow-writer probe did not finish", map[string]any{"goroutines": goroutines}})
-		mu.Unlock()
-	}
+	<-fin
 	mu.Lock()
 	defer mu.Unlock()
 	return append([]poolDiff(nil), diffs...), ncalls
@@ -1154,25 +1284,85 @@ func run(c *Ctx) {
 	// after a few runs that never returned the remaining schedule experiments are
 	// skipped (each would cost a full deadline); the violations are already recorded
 	giveUp := func() bool { return timeouts >= 4 }
-	compare := func(j *encJob, kind string, n int, got string, extra map[string]any) {
+	// the same encode with n workers under the runtime's own schedule, no perturbation
+	naturalRun := func(j *encJob, n int) string {
+		webp.VerifResetOverrides()
+		webp.VerifSetWorkers(sEncodeParallel, n)
+		r := j.encode(deadline)
+		webp.VerifResetOverrides()
+		return r
+	}
+	// WHAT IS REPORTED.  A run whose bytes differ from the one-worker bytes is only a candidate.
+	// It becomes a violation of THIS property when the experiment
+	//     unperturbed(n) ; the same schedule again (n) ; unperturbed(n)
+	// gives the same value for the two unperturbed runs and another one in between: the three
+	// calls are the same call with the same worker count, each preceded by the same call, so
+	// the schedule is the only thing that changed (neither the worker count - C12's subject -
+	// nor what the pooled objects went through before - C11's subject).  A confirmed-stuck
+	// run is reported as such.  Everything else is counted and noted.
+	compare := func(j *encJob, kind string, n int, got string, extra map[string]any, rerun func() string) {
 		c.D.Evaluations++
 		if got == ref[j] {
 			return
 		}
-		if got == "timeout" {
-			timeouts++
-		}
-		key := "schedule-dependent-output/" + kind
-		if got == "timeout" {
-			key = "deadlock-or-lost-wakeup/" + kind
-		} else if strings.HasPrefix(got, "panic") {
-			key = "panic/" + kind
+		if got == "unfinished" {
+			c.Count("no-verdict/run-unfinished-at-hard-cap")
+			return
 		}
 		rp := map[string]any{"image": j.Spec.String(), "quality": j.Q, "method": j.M, "workers": n, "one-worker": ref[j], "got": got}
 		for k, v := range extra {
 			rp[k] = v
 		}
-		c.Violate(key, fmt.Sprintf("lossy Encode under a %s schedule with %d row workers differs from the one-worker result", kind, n), rp)
+		stuck := func(what string) {
+			timeouts++
+			rp["blocked-goroutines"] = lastStuck.Load()
+			rp["stuck-run"] = what
+			c.Violate("deadlock-or-lost-wakeup/"+kind, fmt.Sprintf("lossy Encode under a %s schedule with %d row workers cannot make progress: every goroutine of the call is blocked on a synchronisation primitive and nothing is left to wake them", kind, n), rp)
+		}
+		if got == "timeout" {
+			stuck("the " + kind + " run")
+			return
+		}
+		c.Count("candidates/differs-from-one-worker")
+		natA := naturalRun(j, n)
+		rp["unperturbed-before"] = natA
+		if natA == "timeout" {
+			stuck("the unperturbed run with the same worker count")
+			return
+		}
+		for attempt := 0; attempt < 3; attempt++ {
+			again := rerun()
+			natC := naturalRun(j, n)
+			rp["same-schedule-again"], rp["unperturbed-after"] = again, natC
+			if again == "timeout" || natC == "timeout" {
+				stuck("a re-run")
+				return
+			}
+			if again == "unfinished" || natA == "unfinished" || natC == "unfinished" {
+				c.Count("no-verdict/run-unfinished-at-hard-cap")
+				return
+			}
+			if natA != natC {
+				c.Count("undecided/unperturbed-runs-with-the-same-worker-count-differ")
+				c.D.Notes = append(c.D.Notes, fmt.Sprintf("%s with %d workers: two unperturbed runs returned %s and %s - schedule or history, not decided here, nothing reported", j.name(), n, natA, natC))
+				return
+			}
+			if again != natA {
+				key := "schedule-dependent-output/" + kind
+				if strings.HasPrefix(again, "panic") {
+					key = "panic/" + kind
+				}
+				c.Violate(key, fmt.Sprintf("lossy Encode with %d row workers returns different results under a %s schedule and under the unperturbed schedule (same call before and after, unperturbed result stable)", n, kind), rp)
+				return
+			}
+		}
+		if got == natA {
+			c.Count("differs-from-one-worker-but-not-between-schedules (C12)")
+			c.D.Notes = append(c.D.Notes, fmt.Sprintf("%s with %d workers returns %s under every schedule tried and %s with one worker: a worker-count dependence, C12's subject, not reported here", j.name(), n, got, ref[j]))
+			return
+		}
+		c.Count("candidates/not-reproduced")
+		c.D.Notes = append(c.D.Notes, fmt.Sprintf("%s with %d workers under a %s schedule once returned %s (unperturbed: %s); three re-runs of the schedule did not reproduce it: nothing reported", j.name(), n, kind, got, natA))
 	}
 
 	emitTrace := func(j *encJob, n int, kind string, raw []webp.VerifEvent, withMutants bool) {
@@ -1217,20 +1407,28 @@ func run(c *Ctx) {
 				if giveUp() {
 					continue
 				}
-				webp.VerifResetOverrides()
-				webp.VerifSetWorkers(sEncodeParallel, n)
-				if kind == "perturbed" {
-					p := &perturb{seed: c.Rng.U64(), rate: 3}
-					webp.VerifSetYield(p.yield)
+				pseed := c.Rng.U64()
+				var raw []webp.VerifEvent
+				runIt := func() string {
+					webp.VerifResetOverrides()
+					webp.VerifSetWorkers(sEncodeParallel, n)
+					if kind == "perturbed" {
+						p := &perturb{seed: pseed, rate: 3}
+						webp.VerifSetYield(p.yield)
+					}
+					webp.VerifTrace(true)
+					r := j.encode(deadline)
+					raw = webp.VerifEvents()
+					webp.VerifTrace(false)
+					webp.VerifSetYield(nil)
+					webp.VerifResetOverrides()
+					return r
 				}
-				webp.VerifTrace(true)
-				got := j.encode(deadline)
-				raw := webp.VerifEvents()
-				webp.VerifTrace(false)
-				webp.VerifSetYield(nil)
-				webp.VerifResetOverrides()
-				compare(j, kind, n, got, nil)
-				if got != "timeout" {
+				got := runIt()
+				raw0 := raw
+				compare(j, kind, n, got, nil, runIt)
+				raw = raw0
+				if got != "timeout" && got != "unfinished" {
 					emitTrace(j, n, kind, raw, kind == "free" && n >= 2)
 				}
 				if n >= 2 && j.mbH() >= 2 {
@@ -1283,18 +1481,26 @@ func run(c *Ctx) {
 				if giveUp() {
 					continue
 				}
-				d := &director{seen: map[pt]bool{}, rules: sc.rules(j), slowRow: sc.slow}
-				webp.VerifResetOverrides()
-				webp.VerifSetWorkers(sEncodeParallel, n)
-				webp.VerifSetYield(d.yield)
-				webp.VerifTrace(true)
-				got := j.encode(deadline)
-				raw := webp.VerifEvents()
-				webp.VerifTrace(false)
-				webp.VerifSetYield(nil)
-				webp.VerifResetOverrides()
-				compare(j, "forced:"+sc.name, n, got, map[string]any{"scenario": sc.name})
-				if got != "timeout" {
+				var d *director
+				var raw []webp.VerifEvent
+				runIt := func() string {
+					d = &director{seen: map[pt]bool{}, rules: sc.rules(j), slowRow: sc.slow}
+					webp.VerifResetOverrides()
+					webp.VerifSetWorkers(sEncodeParallel, n)
+					webp.VerifSetYield(d.yield)
+					webp.VerifTrace(true)
+					r := j.encode(deadline)
+					raw = webp.VerifEvents()
+					webp.VerifTrace(false)
+					webp.VerifSetYield(nil)
+					webp.VerifResetOverrides()
+					return r
+				}
+				got := runIt()
+				raw0, d0 := raw, d
+				compare(j, "forced:"+sc.name, n, got, map[string]any{"scenario": sc.name}, runIt)
+				raw, d = raw0, d0
+				if got != "timeout" && got != "unfinished" {
 					emitTrace(j, n, "forced", raw, false)
 				}
 				if d.hits.Load() > 0 || sc.slow >= 0 {
@@ -1318,32 +1524,61 @@ func run(c *Ctx) {
 				if giveUp() {
 					continue
 				}
-				p := &perturb{seed: c.Rng.U64(), rate: uint64(2 + r%5)}
-				webp.VerifResetOverrides()
-				webp.VerifSetWorkers(sEncodeParallel, n)
-				webp.VerifSetYield(p.yield)
-				got := j.encode(deadline)
-				webp.VerifSetYield(nil)
-				webp.VerifResetOverrides()
-				compare(j, "random-perturbation", n, got, map[string]any{"perturb-seed": p.seed, "rate": p.rate})
+				pseed, prate := c.Rng.U64(), uint64(2+r%5)
+				runIt := func() string {
+					p := &perturb{seed: pseed, rate: prate}
+					webp.VerifResetOverrides()
+					webp.VerifSetWorkers(sEncodeParallel, n)
+					webp.VerifSetYield(p.yield)
+					g := j.encode(deadline)
+					webp.VerifSetYield(nil)
+					webp.VerifResetOverrides()
+					return g
+				}
+				got := runIt()
+				compare(j, "random-perturbation", n, got, map[string]any{"perturb-seed": pseed, "rate": prate}, runIt)
 				c.Count("perturbed-runs")
 			}
 		}
 	}
 
 	if giveUp() {
-		c.D.Notes = append(c.D.Notes, "schedule experiments were cut short after 4 runs that never returned")
+		c.D.Notes = append(c.D.Notes, "schedule experiments were cut short after 4 runs that were confirmed stuck")
 	}
 	// ---- (d) concurrent public API use
 	calls := buildAPICalls(c.Rng.Fork(), thorough)
 	solo := make([]string, len(calls))
 	for k := range calls {
 		solo[k] = safe(calls[k].fn)
-		// a call must at least be deterministic when made alone
-		if again := safe(calls[k].fn); again != solo[k] {
-			c.Violate("nondeterministic-alone/"+strings.SplitN(calls[k].name, "/", 2)[0], "the same call made twice alone returns different results",
-				map[string]any{"call": calls[k].name, "first": solo[k], "second": again})
+		// "what the call returns when run alone" must be one value for the comparison to mean
+		// anything; a call that is not deterministic alone (or did not finish) is left out —
+		// why it varies is not decided here, so nothing is reported
+		if again := safe(calls[k].fn); again != solo[k] || again == "unfinished" || again == "timeout" {
+			c.Count("excluded/not-a-single-value-when-alone/" + strings.SplitN(calls[k].name, "/", 2)[0])
+			c.D.Notes = append(c.D.Notes, fmt.Sprintf("call %s made twice alone returned %s and %s: excluded from the concurrent-use comparison", calls[k].name, solo[k], again))
+			solo[k] = excluded
 		}
+	}
+	// A concurrent result that differs from the solo one is reported only if the call, made
+	// alone once more, still does not return it: otherwise "what it returns when run alone"
+	// is not a single value (a dependence on earlier calls: C11's subject), counted only.
+	byName := map[string]func() string{}
+	for k := range calls {
+		byName[calls[k].name] = calls[k].fn
+	}
+	stillDiffers := func(d map[string]any) bool {
+		fn := byName[d["call"].(string)]
+		if fn == nil || d["concurrent"] == "timeout" {
+			return true
+		}
+		again := safe(fn)
+		d["alone-again"] = again
+		if again != d["alone"] {
+			c.Count("not-reported/alone-result-not-a-single-value (C11)")
+			c.D.Notes = append(c.D.Notes, fmt.Sprintf("call %s: concurrent result %v differs from the first solo result %v, but a later solo call returns %v: 'what it returns when run alone' is not a single value (dependence on earlier calls, C11's subject), not reported here", d["call"], d["concurrent"], d["alone"], again))
+			return false
+		}
+		return true
 	}
 	rounds := 3
 	if thorough {
@@ -1357,10 +1592,12 @@ func run(c *Ctx) {
 			kind := strings.SplitN(d["call"].(string), "/", 2)[0]
 			d["goroutines"] = par
 			if d["concurrent"] == "timeout" {
-				c.Violate("deadlock-or-lost-wakeup/concurrent-use/"+kind, "a public API call made concurrently with others never returned", d)
+				c.Violate("deadlock-or-lost-wakeup/concurrent-use/"+kind, "a public API call made concurrently with others cannot make progress (all its goroutines blocked, nobody left to wake them)", d)
 				continue
 			}
-			c.Violate("concurrent-use/"+kind, "a public API call returns something else when other calls run concurrently", d)
+			if stillDiffers(d) {
+				c.Violate("concurrent-use/"+kind, "a public API call returns something else when other calls run concurrently", d)
+			}
 		}
 		for k := range calls {
 			c.Nontrivial(fmt.Sprintf("concurrent|%d|%s", par, calls[k].name))
@@ -1375,7 +1612,13 @@ func run(c *Ctx) {
 		c.D.Evaluations += n
 		for _, d := range diffs {
 			kind := strings.SplitN(d["call"].(string), "/", 2)[0]
-			c.Violate("concurrent-use/"+kind, "a public API call returns something else when other calls run concurrently (perturbed)", d)
+			if d["concurrent"] == "timeout" {
+				c.Violate("deadlock-or-lost-wakeup/concurrent-use/"+kind, "a public API call made concurrently with others cannot make progress (all its goroutines blocked, nobody left to wake them)", d)
+				continue
+			}
+			if stillDiffers(d) {
+				c.Violate("concurrent-use/"+kind, "a public API call returns something else when other calls run concurrently (perturbed)", d)
+			}
 		}
 	}
 
@@ -1392,6 +1635,17 @@ func run(c *Ctx) {
 			c.Count(fmt.Sprintf("pool-probe/goroutines=%d", g))
 			c.Nontrivial(fmt.Sprintf("pool-probe|%d", g))
 			for _, d := range diffs {
+				if strings.HasPrefix(d.key, "pool-sharing/result/") {
+					for k := range pcalls {
+						if pcalls[k].name == d.replay["call"] {
+							k := k
+							byName[pcalls[k].name] = func() string { r, _ := pcalls[k].fn(); return r }
+						}
+					}
+					if !stillDiffers(d.replay) {
+						continue
+					}
+				}
 				c.Violate(d.key, d.desc, d.replay)
 			}
 			if g == 12 {
@@ -1414,11 +1668,37 @@ func run(c *Ctx) {
 			c.Nontrivial("slow-writer|" + wc.name)
 		}
 		for _, d := range diffs {
+			if strings.HasPrefix(d.key, "pool-sharing/slow-writer-result/") {
+				for k := range wcalls {
+					if wcalls[k].name == d.replay["call"] {
+						k := k
+						byName[wcalls[k].name] = func() string {
+							var buf bytes.Buffer
+							o := wcalls[k].opts
+							if err := webp.Encode(&buf, wcalls[k].img, &o); err != nil {
+								return "err"
+							}
+							return fmt.Sprintf("%d:%s", buf.Len(), digest(buf.Bytes()))
+						}
+					}
+				}
+				if !stillDiffers(d.replay) {
+					continue
+				}
+			}
 			c.Violate(d.key, d.desc, d.replay)
 		}
 		c.D.Notes = append(c.D.Notes, fmt.Sprintf("slow-writer probe: %d encodes (lossless streaming / buffered, lossy plain / extended, 128x96) through writers that copy, yield 100-300us and re-compare the slice they were given", nc))
 	}
 
+	if n := slowCalls.Load(); n > 0 {
+		c.Count("calls-that-returned-after-the-deadline")
+		c.D.Notes = append(c.D.Notes, fmt.Sprintf("%d calls returned only after the %v deadline (slow machine); their results were used normally", n, deadline))
+	}
+	if n := unfinishedCalls.Load(); n > 0 {
+		c.Count("no-verdict/calls-unfinished-at-hard-cap")
+		c.D.Notes = append(c.D.Notes, fmt.Sprintf("%d calls had not returned after 11 x the deadline but were still running: no verdict", n))
+	}
 	// ---- (e) race detector build (thorough tier)
 	if thorough {
 		raceRun(c)
@@ -1449,7 +1729,9 @@ func raceRun(c *Ctx) {
 	cmd.Dir = filepath.Join(vdir, "harness")
 	cmd.Env = append(os.Environ(), "GOFLAGS=-mod=mod", "GOPROXY=off")
 	if out, err := cmd.CombinedOutput(); err != nil {
-		c.Violate("harness-race-build", "cannot build the harness with -race", string(out))
+		// the machinery (no C toolchain for -race, ...), not the library
+		c.Count("race-detector-build-unavailable")
+		c.D.Notes = append(c.D.Notes, "race-detector run skipped: the harness could not be built with -race: "+strings.TrimSpace(string(out[max(0, len(out)-300):])))
 		return
 	}
 	run := exec.Command(bin, "racechild", strconv.FormatInt(c.Seed, 10), c.Tier)
@@ -1465,15 +1747,55 @@ func raceRun(c *Ctx) {
 		if len(rep) > 4000 {
 			rep = rep[:4000]
 		}
-		c.Violate("data-race", "the race detector reports a data race during perturbed parallel encodes / concurrent API use", rep)
+		// reported only when the racing accesses are in library code (a race inside the
+		// harness itself would be a defect of the harness)
+		if strings.Contains(rep, "github.com/deepteams/webp") {
+			c.Violate("data-race", "the race detector reports a data race during perturbed parallel encodes / concurrent API use", rep)
+		} else {
+			c.Count("race-report-outside-library")
+			c.D.Notes = append(c.D.Notes, "the race detector reported a race with no library frame (harness defect?): "+rep[:min(len(rep), 600)])
+		}
+		return
+	}
+	if strings.Contains(s, "STUCK: ") {
+		i := strings.Index(s, "STUCK: ")
+		c.Violate("deadlock-or-lost-wakeup/race-child", "calls in the -race child cannot make progress (all their goroutines blocked, nobody left to wake them)", s[i:min(len(s), i+1000)])
 		return
 	}
 	if err != nil {
-		c.Violate("race-child-failed", "the -race child failed", s[max(0, len(s)-2000):])
+		// evidence produced by the Go runtime itself, in library code
+		if strings.Contains(s, "all goroutines are asleep - deadlock!") {
+			c.Violate("deadlock-or-lost-wakeup/race-child", "the Go runtime reports that every goroutine of the child is blocked", s[max(0, len(s)-3000):])
+			return
+		}
+		if i := strings.Index(s, "panic: "); i >= 0 && panicInLibrary(s[i:]) {
+			c.Violate("panic/race-child", "a library goroutine panicked during perturbed parallel encodes / concurrent API use", s[i:min(len(s), i+3000)])
+			return
+		}
+		c.Count("race-child-failed-without-evidence")
+		c.D.Notes = append(c.D.Notes, "the -race child failed without a race report, a runtime deadlock report or a library panic (machinery): "+s[max(0, len(s)-600):])
 		return
 	}
 	c.Nontrivial("race-detector-clean")
 	c.D.Notes = append(c.D.Notes, "race-detector run: "+strings.TrimSpace(s[max(0, len(s)-200):]))
+}
+
+// panicInLibrary: the first non-runtime frame of the panicking goroutine is library code.
+func panicInLibrary(s string) bool {
+	i := strings.Index(s, "[running]:")
+	if i < 0 {
+		return false
+	}
+	for _, l := range strings.Split(s[i:], "\n")[1:] {
+		if l == "" {
+			break
+		}
+		if strings.HasPrefix(l, "\t") || strings.HasPrefix(l, "panic(") || strings.HasPrefix(l, "runtime.") {
+			continue
+		}
+		return strings.HasPrefix(l, "github.com/deepteams/webp")
+	}
+	return false
 }
 
 func raceChild() {
@@ -1481,13 +1803,15 @@ func raceChild() {
 	runtime.GOMAXPROCS(6)
 	rng := NewRand(uint64(seed) ^ 0xace)
 	jobs := jobsFor(rng.Fork(), false)
-	nEnc := 0
+	nEnc, stuck := 0, 0
 	for _, j := range jobs {
 		for n := 2; n <= 6; n += 2 {
 			p := &perturb{seed: rng.U64(), rate: 3}
 			webp.VerifSetWorkers(sEncodeParallel, n)
 			webp.VerifSetYield(p.yield)
-			j.encode(120 * time.Second)
+			if j.encode(120*time.Second) == "timeout" {
+				stuck++
+			}
 			webp.VerifSetYield(nil)
 			webp.VerifResetOverrides()
 			nEnc++
@@ -1498,8 +1822,21 @@ func raceChild() {
 	for k := range calls {
 		solo[k] = safe(calls[k].fn)
 	}
-	_, n := runConcurrent(calls, solo, 8, 2, rng.Fork())
-	_, pc, pv := runPoolProbe(buildPoolCalls(rng.Fork()), 8, 2, rng.Fork())
-	_, wn := runWriterProbe(buildWriterCalls(rng.Fork()), 8, 2, rng.Fork())
+	cd, n := runConcurrent(calls, solo, 8, 2, rng.Fork())
+	for _, d := range cd {
+		if d["concurrent"] == "timeout" {
+			stuck++
+		}
+	}
+	pd, pc, pv := runPoolProbe(buildPoolCalls(rng.Fork()), 8, 2, rng.Fork())
+	wd, wn := runWriterProbe(buildWriterCalls(rng.Fork()), 8, 2, rng.Fork())
+	for _, d := range append(pd, wd...) {
+		if strings.HasPrefix(d.key, "deadlock-or-lost-wakeup/") {
+			stuck++
+		}
+	}
+	if stuck > 0 {
+		fmt.Printf("STUCK: %d calls confirmed blocked for ever (%v)\n", stuck, lastStuck.Load())
+	}
 	fmt.Printf("race child: %d perturbed parallel encodes, %d concurrent API calls, pool probe %d calls + %d re-verifications, slow-writer probe %d encodes\n", nEnc, n, pc, pv, wn)
 }
